@@ -10,6 +10,7 @@ CONSTANTS
   Permissive = FALSE
   Bug = {}
   GenMode = "two"
+  FollowCmds = {"R", "W", "A", "I", "X", "U"}
   MaxChanges = 2
 INVARIANT EmitTrace
 CHECK_DEADLOCK FALSE
